@@ -5,7 +5,7 @@ cd /verif
 out=/verif/out/seed_matrix.txt
 : > $out
 declare -A extra=( [C01-b]="C03" [C03-b]="C01" [C14-b]="C16" [C18-a]="C14 C16" [C20-b]="C03" [C02-b]="C07" [C05-b]="C07" [C07-a]="C05" [C10-a]="C05 C06" [C06-a]="C05 C10" [C12-a]="C01 C02" [C16-b]="C08" [C09-a]="C01 C03" [C11-a]="C09"
-  [C10-c]="C19" [C16-d]="C15 C14" [C15-c]="C14" [C01-c]="C03" [C01-d]="C03" [C08-c]="C01" [C12-c]="C01 C05" [C06-d]="C04" [C03-d]="C05" [C09-d]="C01 C03" [C16-c]="C02 C08" [C17-c]="C05" [C12-d]="C05" [C03-i]="C19" [C09-i]="C04" [C09-j]="C04" [C02-l]="C07" [C07-l]="C03" [C09-l]="C08" [C07-k]="C12" [C16-k]="C01" [C01-k]="C17" [C07-n]="C04" [C19-n]="C03" [C02-n]="C16" [C16-n]="C05" [C12-n]="C05" )
+  [C10-c]="C19" [C16-d]="C15 C14" [C15-c]="C14" [C01-c]="C03" [C01-d]="C03" [C08-c]="C01" [C12-c]="C01 C05" [C06-d]="C04" [C03-d]="C05" [C09-d]="C01 C03" [C16-c]="C02 C08" [C17-c]="C05" [C12-d]="C05" [C03-i]="C19" [C09-i]="C04" [C09-j]="C04" [C02-l]="C07" [C07-l]="C03" [C09-l]="C08" [C07-k]="C12" [C16-k]="C01" [C01-k]="C17" [C07-n]="C04" [C19-n]="C03" [C02-n]="C16" [C16-n]="C05" [C12-n]="C05" [C07-o]="C09" [C15-o]="C17" [C04-o]="C13" [C05-o]="C01" )
 par=""; seq=""
 for d in seeded/*/; do
   sid=$(basename $d); pid=${sid%-*}
